@@ -51,7 +51,7 @@ func (c *Confirmer) TryConfirm(block *types.Block) (types.SignData, bool) {
 		return types.SignData{}, false
 	}
 
-	if block.IsConfirmExist(sig) {
+	if block.IsConfirmExist(sig) || isConfirmedBySelf(block) {
 		return types.SignData{}, false
 	}
 
@@ -152,6 +152,18 @@ func (c *Confirmer) SetLastSig(block *types.Block) {
 	}
 }
 
+// isConfirmedBySelf test if one of the block's confirms is signed by this node, whatever its encoding is
+func isConfirmedBySelf(block *types.Block) bool {
+	hash := block.Hash()
+	for _, sig := range block.Confirms {
+		nodeID, err := sig.RecoverNodeID(hash)
+		if err == nil && bytes.Compare(nodeID, deputynode.GetSelfNodeID()) == 0 {
+			return true
+		}
+	}
+	return false
+}
+
 func IsMinedByself(block *types.Block) bool {
 	nodeID, err := block.SignerNodeID()
 	if err != nil {
@@ -176,7 +188,7 @@ func (c *Confirmer) tryConfirmStable(block *types.Block) *types.SignData {
 		return nil
 	}
 
-	if block.IsConfirmExist(sig) {
+	if block.IsConfirmExist(sig) || isConfirmedBySelf(block) {
 		return nil
 	}
 
